@@ -3258,7 +3258,10 @@ func (bc *Blockchain) GetTestHistoricVM(t trigger.Type, tx *transaction.Transact
 		if b.Index < bc.BlockHeight()-bc.GetMaxTraceableBlocks() {
 			return nil, fmt.Errorf("state for height %d is outdated and removed from the storage", b.Index)
 		}
-		mode |= mpt.ModeGCFlag
+		// Node records carry reference counters in this configuration, but it's
+		// a read-only trie, so nodes waiting for GC must stay accessible (they're
+		// a part of the retained historic states).
+		mode |= mpt.ModeLatest
 	}
 	if b.Index < 1 || b.Index > bc.BlockHeight()+1 {
 		return nil, fmt.Errorf("unsupported historic chain's height: requested state for %d, chain height %d", b.Index, bc.blockHeight)
